@@ -121,11 +121,13 @@ func (sm *Subscriptions) ProcessWhen(activated, deactivated S) []chan struct{} {
 	// TODO optimize by skipping
 	ret := sm.processWhenCtx()
 
-	// collect matched bindings
+	// update the indexes of all the matched bindings first, and only then check
+	// for completion: one transition can activate a state and deactivate another
+	// one of the same binding
+	var touched []*WhenBinding
 	all := slices.Concat(activated, deactivated)
 	for _, s := range all {
-		// TODO optimize clone
-		for _, binding := range slices.Clone(sm.when[s]) {
+		for _, binding := range sm.when[s] {
 
 			if slices.Contains(activated, s) {
 
@@ -163,16 +165,23 @@ func (sm *Subscriptions) ProcessWhen(activated, deactivated S) []chan struct{} {
 				binding.States[s] = false
 			}
 
-			// if not all matched, ignore for now
-			expired := binding.Ctx != nil && binding.Ctx.Err() != nil
-			if binding.Matched < binding.Total && !expired {
-				continue
+			if !slices.Contains(touched, binding) {
+				touched = append(touched, binding)
 			}
-
-			// completed - rm binding and collect ch
-			sm.gcWhenBinding(binding, true)
-			ret = append(ret, binding.Ch)
 		}
+	}
+
+	// collect the completed ones
+	for _, binding := range touched {
+		// if not all matched, ignore for now
+		expired := binding.Ctx != nil && binding.Ctx.Err() != nil
+		if binding.Matched < binding.Total && !expired {
+			continue
+		}
+
+		// completed - rm binding and collect ch
+		sm.gcWhenBinding(binding, true)
+		ret = append(ret, binding.Ch)
 	}
 
 	return ret
